@@ -3,6 +3,7 @@ package sym
 import (
 	"bytes"
 	"context"
+	"errors"
 	"io"
 	"net/url"
 	"sort"
@@ -16,14 +17,22 @@ import (
 // embedded interface).
 type MemStore struct {
 	dstore.Store
-	files  *map[string][]byte
-	prefix string
+	files      *map[string][]byte
+	prefix     string
+	failWrites *int // number of coming WriteObject calls that consume their reader and then fail (transient fault)
 }
 
 func NewMemStore() *MemStore {
 	m := map[string][]byte{}
-	return &MemStore{files: &m}
+	n := 0
+	return &MemStore{files: &m, failWrites: &n}
 }
+
+// FailNextWrites makes the next n WriteObject calls read their content and then
+// return a transient error without storing anything.
+func (m *MemStore) FailNextWrites(n int) { *m.failWrites = n }
+
+var errTransientWrite = errors.New("mem store: transient write failure")
 
 type memReader struct{ *bytes.Reader }
 
@@ -64,6 +73,10 @@ func (m *MemStore) WriteObject(ctx context.Context, base string, f io.Reader) er
 	b, err := io.ReadAll(f)
 	if err != nil {
 		return err
+	}
+	if *m.failWrites > 0 {
+		*m.failWrites--
+		return errTransientWrite
 	}
 	(*m.files)[m.prefix+base] = b
 	return nil
@@ -108,7 +121,7 @@ func (m *MemStore) WalkFrom(ctx context.Context, prefix, startingPoint string, f
 }
 
 func (m *MemStore) SubStore(sub string) (dstore.Store, error) {
-	return &MemStore{files: m.files, prefix: m.prefix + sub + "/"}, nil
+	return &MemStore{files: m.files, prefix: m.prefix + sub + "/", failWrites: m.failWrites}, nil
 }
 
 func (m *MemStore) BaseURL() *url.URL              { return &url.URL{Scheme: "mem", Path: "/" + m.prefix} }
